@@ -17,7 +17,7 @@ ID = "C07"
 LEVEL = "exploration"
 RULE = ("Independent random styles (the 15 legal ones and '') for rtf_page.border_first / border_last and rtf_body."
         "border_first / border_last x header mode {default, explicit, multi-row, none} x footnote / source {table, "
-        "paragraph, absent} x every placement x 1..many pages x {plain, page_by, subline_by} x per-cell user "
+        "paragraph, absent} x every placement x 1..many pages x {plain, page_by (1-2 columns), subline_by, subline_by + page_by; grouping columns leading or interleaved with the data columns} x per-cell user "
         "border_top / border_bottom / border_left / border_right matrices that are non-default on rows >= 1; 2-3 "
         "section documents for the first / last clauses; plus an exhaustive product footnote(3) x source(3) x "
         "placement pairs(9) x header(2) x strategy(3) x pages{1,3}. Oracle on the \\clbrdrt / \\clbrdrb styles of the "
@@ -40,16 +40,40 @@ def canon(s):
     return CANON.get(s, s)
 
 
-def make(n, nrow, strat, hdr, fn, src, pl, pb_first, pb_last, bb_first, bb_last, ncol=2, user=None, pbh=None):
-    cols = []
+def make(n, nrow, strat, hdr, fn, src, pl, pb_first, pb_last, bb_first, bb_last, ncol=2, user=None, pbh=None, interleave=False):
     body = {}
+    gcols = []
     if strat in ("page_by", "subline"):
         tag = "@G0" if strat == "page_by" else "@B0"
-        cols.append({"name": "@N0", "dtype": "str", "values": [f"{tag}:v{i // 4}" for i in range(n)]})
-        body["page_by" if strat == "page_by" else "subline_by"] = ["@N0"]
-    k = len(cols)
-    for j in range(ncol):
-        cols.append({"name": f"@N{k + j}", "dtype": "str", "values": [f"r{i}c{k + j}" for i in range(n)]})
+        gcols.append({"dtype": "str", "values": [f"{tag}:v{i // 4}" for i in range(n)]})
+    elif strat == "page_by2":
+        gcols.append({"dtype": "str", "values": [f"@G0:v{i // 6}" for i in range(n)]})
+        gcols.append({"dtype": "str", "values": [f"@G1:v{i // 3}" for i in range(n)]})
+    elif strat == "subline+page_by":
+        gcols.append({"dtype": "str", "values": [f"@B0:v{i // 6}" for i in range(n)]})
+        gcols.append({"dtype": "str", "values": [f"@G0:v{i // 3}" for i in range(n)]})
+    # column order: grouping columns first, or interleaved with the data columns (g d g d d ...)
+    total = len(gcols) + ncol
+    if interleave and gcols:
+        gpos = [2 * k for k in range(len(gcols)) if 2 * k < total]
+        gpos += [p for p in range(total) if p not in gpos][: len(gcols) - len(gpos)]
+    else:
+        gpos = list(range(len(gcols)))
+    cols, gi = [], 0
+    for p in range(total):
+        if p in gpos:
+            c = dict(gcols[gi], name=f"@N{p}")
+            gi += 1
+        else:
+            c = {"name": f"@N{p}", "dtype": "str", "values": [f"r{i}c{p}" for i in range(n)]}
+        cols.append(c)
+    gnames = [cols[p]["name"] for p in sorted(gpos)]
+    if strat in ("page_by", "page_by2"):
+        body["page_by"] = gnames
+    elif strat == "subline":
+        body["subline_by"] = gnames
+    elif strat == "subline+page_by":
+        body["subline_by"], body["page_by"] = gnames[:1], gnames[1:]
     if bb_first is not None:
         body["border_first"] = bb_first
     if bb_last is not None:
@@ -94,13 +118,13 @@ def enumerate_cases(tier):
 def _case(draw):
     style = st.sampled_from(STYLES)
     opt = lambda: draw(st.one_of(st.none(), style))
-    strat = draw(st.sampled_from(["plain", "plain", "page_by", "subline"]))
+    strat = draw(st.sampled_from(["plain", "plain", "page_by", "subline", "page_by2", "subline+page_by"]))
     n = draw(st.integers(1, 24))
     ncol = draw(st.integers(1, 3))
     nrow = draw(st.integers(2, 10))
     user = {}
     if draw(st.booleans()):
-        off = 1 if strat != "plain" else 0
+        off = {"plain": 0, "page_by": 1, "subline": 1}.get(strat, 2)
         for name in ("border_top", "border_bottom"):
             if draw(st.booleans()):
                 # matrices indexed by ORIGINAL column; row 0 keeps the default ''
@@ -113,7 +137,8 @@ def _case(draw):
     rec = make(n, nrow, strat, draw(st.sampled_from(["default", "explicit", "multi", "none", "nocolheader"])), draw(st.sampled_from([None, "table", "para"])),
                draw(st.sampled_from([None, "table", "para"])),
                (draw(st.sampled_from(["first", "last", "all"])), draw(st.sampled_from(["first", "last", "all"]))) if draw(st.booleans()) else None,
-               opt(), opt(), opt(), opt(), ncol=ncol, user=user, pbh=draw(st.sampled_from([None, None, True, False])))
+               opt(), opt(), opt(), opt(), ncol=ncol, user=user, pbh=draw(st.sampled_from([None, None, True, False])),
+               interleave=draw(st.booleans()))
     if draw(st.integers(0, 9)) < 2:
         # multi-section variant: first / last clauses only
         secs = [rec["sections"][0]]
@@ -249,7 +274,7 @@ def check(case) -> Result:
                         res.fail("interior", "bottom" + ("/before_component" if pos == len(data) - 1 else ""), f"page {pn + 1} cell r{i}c{j}: bottom {g!r} expected user's {want!r}")
     table_comp_last = bool(rows_by_page[-1]) and rows_by_page[-1][-1].role in ("fnrow", "srcrow")
     res.labels = [pages_label(np_), "fn=" + fn_kind, "src=" + src_kind, "header" if has_header else "no_header",
-                  "strategy=" + ("page_by" if body.get("page_by") else "subline" if body.get("subline_by") else "plain"),
+                  "strategy=" + ("subline+page_by" if (body.get("page_by") and body.get("subline_by")) else ("page_by2" if len(body["page_by"]) > 1 else "page_by") if body.get("page_by") else "subline" if body.get("subline_by") else "plain"),
                   "user_borders" if ("border_top" in body or "border_bottom" in body) else "default_borders"]
     res.nontrivial = np_ >= 2 or table_comp_last
     # de-duplicate
